@@ -1,7 +1,8 @@
 #!/bin/sh
-# usage: goal.sh file.v LINE  -- show the goal just before LINE (1-based)
+# usage: goal.sh file.v LINE [N] -- show the goal just before LINE (1-based), last N lines of output (default 60)
 f=$1; n=$2
-head -n $((n-1)) "$f" > /tmp/_goal.v
-printf '\nShow.\nAbort.\n' >> /tmp/_goal.v
-cd /verif/coq && coqc -Q . ELA /tmp/_goal.v 2>&1 | tail -${3:-40}
-rm -f /tmp/_goal.vo /tmp/_goal.glob /tmp/._goal.aux /tmp/_goal.vok /tmp/_goal.vos
+t=$(mktemp -d /tmp/goal.XXXXXX)
+head -n $((n-1)) "$f" > $t/g_goal.v
+printf '\nShow.\nAbort.\n' >> $t/g_goal.v
+cd /verif/coq && coqc -Q . ELA $t/g_goal.v 2>&1 | tail -${3:-60}
+rm -rf $t
